@@ -147,7 +147,7 @@ pub const fn it_chars_count(s: &str) -> usize { iter::eval!(konst::string::chars
 
 use konst::array;
 pub const fn ar_map<const N: usize>(xs: [u32; N]) -> [u32; N] { array::map!(xs, |x| x / 2) }
-pub const fn ar_map_ref<const N: usize>(xs: &[u32; N]) -> [bool; N] { array::map!(xs, |x: &u32| *x % 2 == 0) }
+pub const fn ar_map_ref<const N: usize>(xs: &[u32; N]) -> [bool; N] { array::map!(xs, |x: u32| x % 2 == 0) }
 pub const fn ar_from_fn<const N: usize>() -> [usize; N] { array::from_fn!(|i| i * 2) }
 pub const fn ar_from_fn_k<const N: usize>(k: usize) -> [usize; N] { array::from_fn!(|i| i + k) }
 pub const fn ar_map_by_val<const N: usize>(xs: [u32; N]) -> [u32; N] { array::map_!(xs, |x| x / 2) }
